@@ -510,9 +510,9 @@ func (st *c04State) checkDayTable(na *c04NextA) {
 // timeKids: the instants a time-valued term is computed from.
 func c04TimeKids(t *c04T) (kids []*c04T, known bool) {
 	switch {
-	case t.Op == "leaf":
+	case t.Op == "leaf", t.Op == "muvar":
 		return nil, true
-	case t.Op == "choice":
+	case t.Op == "choice", t.Op == "mu":
 		return t.Args, true
 	case t.Op == "tm:Add" || t.Op == "tm:AddDate" || t.Op == "tm:Truncate" || t.Op == "tm:In" || t.Op == "tm:UTC" || t.Op == "tm:Local" || t.Op == "tm:Round":
 		return t.Args[:1], true
@@ -725,6 +725,10 @@ func (st *c04State) checkSearch(na *c04NextA) {
 		}
 		if u == "Month" || u == "Day" {
 			lc.checkGap()
+			lc.checkBackstep()
+		}
+		if u == "Month" {
+			lc.checkResetStart()
 		}
 		if u != "Month" {
 			lc.checkCarry(isTop, floorOf[u])
@@ -863,7 +867,8 @@ func (lc *c04LoopCtx) checkStep() {
 					rebuilt = true
 				}
 			}
-			if !rebuilt && d > 0 {
+			// (a walk in finer units — the hour-by-hour walk of a progress guard — is not a day step)
+			if !rebuilt && d > 12*3600e9 {
 				fixedDay, fixedDayT = true, s
 			}
 		default:
